@@ -439,6 +439,8 @@ func (s *segment[T, O]) snapshotInto(dst string) (bool, error) {
 // snapshotClosed hard-links the whole quiescent segment directory into dst.
 // Must be called with s.mu held and s.index == nil.
 func (s *segment[T, O]) snapshotClosed(dst string) (bool, error) {
+	verifSegmentEvent("SnapClosedBegin", s.location)
+	defer verifSegmentEvent("SnapClosedEnd", s.location)
 	segDir := filepath.Base(s.location)
 	segPath := filepath.Join(dst, segDir)
 	if err := s.lfs.CreateHardLink(s.location, segPath, includeInClosedSnapshot); err != nil {
